@@ -612,6 +612,22 @@ func (c *conc) reader(id int, seed int64, ncalls int, done *int32) {
 	}
 }
 
+type yieldCmp struct {
+	vt.RefCmp
+	n uint64
+}
+
+func (y *yieldCmp) Compare(a, b []byte) int {
+	c := atomic.AddUint64(&y.n, 1)
+	if c%7 == 0 {
+		runtime.Gosched()
+	}
+	if c%29 == 0 {
+		time.Sleep(60 * time.Microsecond)
+	}
+	return y.RefCmp.Compare(a, b)
+}
+
 func main() {
 	mode := flag.String("mode", "seq", "seq | conc")
 	seed := flag.Int64("seed", 1, "seed")
@@ -650,7 +666,13 @@ func main() {
 	}
 	e := &env{tr: tr, u: vt.NewUniverse(cmp, nkk, *seed, true), nk: *nk, stats: map[string]int{},
 		vals: &values{g: vt.NewValueGen(*seed, vlens)}}
-	e.db = memdb.New(cmp, capacity)
+	if *mode == "conc" && *seed%2 == 0 {
+		// a comparer that sometimes yields or dawdles inside memdb's critical sections: with correct locking this only
+		// delays the other side; it stretches the window of any access made outside the lock
+		e.db = memdb.New(&yieldCmp{RefCmp: cmp}, capacity)
+	} else {
+		e.db = memdb.New(cmp, capacity)
+	}
 	row := fmt.Sprintf("cmp=%d nkeys=%d cap=%d", kind, e.u.N(), capacity)
 	tr.Emit(vt.Ev{"ev": "reset", "mode": *mode, "seed": *seed, "cap": capacity, "row": row})
 	start := time.Now()
